@@ -16,6 +16,11 @@ def run(chk):
         tf = os.path.join(wd, "laws_%d.ndjson" % i)
         n = lines_of(run_harness(yv, ["laws-record", chk.seed * 100 + i, 4 if quick else 10, 60 if quick else 300, tf]))[0]["events"]
         jobs.append((tf, n, "laws"))
+    # the adaptive kind (its factor is a quotient of running sums of changes) on many more programs, all small lengths
+    for i in range(2 if quick else 6):
+        tf = os.path.join(wd, "laws_vidya_%d.ndjson" % i)
+        n = lines_of(run_harness(yv, ["laws-record", chk.seed * 100 + 70 + i, 30 if quick else 60, 80 if quick else 300, tf, "Vidya"]))[0]["events"]
+        jobs.append((tf, n, "laws"))
     # the laws at late positions of a stream (beyond 1024 steps: periodic internal resynchronisation, counters)
     for i in range(2 if quick else 6):
         tf = os.path.join(wd, "laws_long_%d.ndjson" % i)
@@ -31,8 +36,7 @@ def run(chk):
     # late impulses: the unit input arrives after a number of quiet steps chosen so that the impulse is still inside the window
     # when the step counter passes a round number (256, 512, 1000, 1024, 2048, 4096, 65536: periodic housekeeping)
     for (a, b, pre) in ([(5, 6, 1020), (100, 100, 1020), (8, 8, 252), (9, 9, 995)] if quick else
-                        [(4, 9, 1020), (100, 101, 1020), (254, 254, 1000), (7, 8, 2044), (7, 8, 4092), (6, 7, 508), (6, 7, 252), (9, 10, 995),
-                         (6, 6, 65532)]):
+                        [(4, 9, 1020), (100, 101, 1020), (254, 254, 1000), (7, 8, 2044), (7, 8, 4092), (6, 7, 508), (6, 7, 252), (9, 10, 995), (6, 6, 8188)]):
         tf = os.path.join(wd, "impulse_late_%d_%d_%d.ndjson" % (a, b, pre))
         n = lines_of(run_harness(yv, ["laws-impulse", a, b, tf, pre]))[0]["events"]
         jobs.append((tf, n, "impulse"))
